@@ -190,16 +190,21 @@ def family_part(ck: Check):
                 cfg = seed.continuation_config
                 seed.continuation_config = cfg.merge(stepper=stepper) if hasattr(cfg, "merge") else cfg
                 p0 = float(seed.initial_state[comp])
+                comps = list(getattr(seed.continuation_config, "state", (comp,)))
                 mm = 5
                 if scenario == "leave-target":
-                    tgt, st = ([p0 - 1e-9], [p0 + 2.5 * step]), step
+                    lo, hi, st = p0 - 1e-9, p0 + 2.5 * step, step
                 elif scenario == "member-limit":
-                    tgt, st, mm = ([p0 - 1.0], [p0 + 1.0]), step, 3
+                    lo, hi, st, mm = p0 - 1.0, p0 + 1.0, step, 3
                 else:
-                    tgt, st = ([p0 - 1.0], [p0 + 1.0]), 64 * step
+                    lo, hi, st = p0 - 1.0, p0 + 1.0, 64 * step
+                # the continuation parameter may have several components (e.g. (X, Y) for Lyapunov orbits): only `comp` is stepped
+                tgt = ([lo if c == comp else -10.0 for c in comps], [hi if c == comp else 10.0 for c in comps])
+                stepv = tuple(st if c == comp else 1e-10 for c in comps)   # options require |step| >= step_min
+                ci = comps.index(comp)
                 label = f"{fam}|{stepper}|{scenario}"
                 ck.count(("family", label), True)
-                opts = OrbitContinuationOptions(target=tgt, step=(st,), max_members=mm, max_retries_per_step=8, step_min=1e-10,
+                opts = OrbitContinuationOptions(target=tgt, step=stepv, max_members=mm, max_retries_per_step=8, step_min=1e-10,
                                                 step_max=1.0, shrink_policy=None, extra_params=seed.correction_options)
                 try:
                     res = seed.generate(opts)
@@ -210,14 +215,15 @@ def family_part(ck: Check):
                                      "parameter_alignment": -120, "closure_with_own_period": -60, "offset_is_current_step": -90},
                              {"family": fam, "stepper": stepper, "scenario": scenario})
                 famv = list(res.family)
-                params = [float(np.asarray(p).ravel()[0]) for p in res.parameter_values]
+                params = [float(np.asarray(p).ravel()[ci]) for p in res.parameter_values]
                 cs.obs(t, "member_bound", 0.0 if len(famv) <= mm else 1.0)
-                inside = [tgt[0][0] <= p <= tgt[1][0] for p in params]
+                inside = [lo <= p <= hi for p in params]
                 cs.obs(t, "only_last_outside_target", 0.0 if all(inside[:-1]) else 1.0)
                 ok = (res.accepted_count == len(famv) == len(params) and res.iterations == res.accepted_count - 1 + res.rejected_count
-                      and (scenario != "forced-rejections" or res.rejected_count >= 1)
                       and (scenario != "leave-target" or not inside[-1]) and (scenario != "member-limit" or len(famv) == mm))
                 cs.obs(t, "counts_consistent", 0.0 if ok else 1.0)
+                if scenario == "forced-rejections":
+                    ck.part("family_rejections", **{label: int(res.rejected_count)})
                 cs.obs(t, "parameter_alignment", max(abs(float(o.initial_state[comp]) - p) for o, p in zip(famv, params)))
                 worst = 0.0
                 for o in famv:
@@ -235,6 +241,8 @@ def family_part(ck: Check):
                 if len(ck.cov["samples"]) < 8:
                     ck.sample({"family_case": label, "parameters": params, "periods": [float(o.period) for o in famv],
                                "accepted": res.accepted_count, "rejected": res.rejected_count, "iterations": res.iterations})
+    if not any(v > 0 for v in ck.cov["parts"].get("family_rejections", {}).values()):
+        ck.notes.append("family contracts: no forced-rejection scenario produced a rejection; the shrink path was not exercised end to end")
     cs.decide(key_fn=lambda t, n: f"orbit.generate|{n}")
     cs.selftest()
 
